@@ -48,7 +48,7 @@ def st_copy(draw):
             # 'occupied': the target path holds another array with metadata and is replaced (overwrite=True);
             # 'aliased': values handed out by src.metadata are changed in place by the caller before the copy is made;
             # 'emptied': the source had metadata once, all keys were popped
-            'pre': draw(st.sampled_from([None, None, 'occupied', 'aliased', 'emptied', 'occupied+emptied', 'during-iterappend', 'refused-first']))}
+            'pre': draw(st.sampled_from([None, None, 'occupied', 'aliased', 'emptied', 'occupied+emptied', 'during-iterappend', 'refused-first'])), 'recopy': draw(st.sampled_from([None, None, 'shrink-regrow', 'grow', 'shrink']))}
     if kind == 'Array':
         spec['shape'] = draw(gens.st_shape(max_rank=3))
         spec['chunk'] = draw(st.sampled_from([None, 1, 2, 3, 100]))
@@ -295,6 +295,32 @@ def _exec_copy(ctx, spec):
                 return out
         if c.accessmode != spec['mode']:
             out.viol('copy-accessmode', tag, f'{c.accessmode} vs {spec["mode"]}')
+        # ---- a second copy, taken through the SAME source handle after it changed the array (shrunk and regrown to the same
+        #      length with other rows / a longer subarray, grown, or shrunk): it equals the source as it is then
+        if spec.get('recopy') and dtarg is None:
+            out.cls('second-copy-after-change:' + spec['recopy'])
+            try:
+                n_ = len(src)
+                trunc_ = darr.truncate_array if kind == 'Array' else darr.truncate_raggedarray
+                tail_ = tuple(src.shape[1:]) if kind == 'Array' else tuple(src.atom)
+                newrows = np.full((3,) + tail_, 7, dtype=src.dtype)
+                if spec['recopy'] in ('shrink-regrow', 'shrink') and n_ >= 2:
+                    trunc_(src, n_ - 1)
+                if spec['recopy'] in ('shrink-regrow', 'grow'):
+                    if kind == 'Array':
+                        src.append(newrows[:1] if spec['recopy'] == 'shrink-regrow' else newrows)
+                    else:
+                        src.append(newrows)            # one subarray (of three rows)
+                cp2 = os.path.join(d, 'copy2.darr')
+                c2 = src.copy(cp2, **kw)
+                want2 = read_all(darr.open(sp), kind)
+                for hn, h in (('returned', c2), ('fresh', darr.open(cp2))):
+                    if read_all(h, kind) != want2:
+                        out.viol('second-copy-differs-from-source', f'{kind}:{spec["recopy"]}', f'{hn}: the copy taken after the source changed is not equal to the source')
+                        return out
+            except Exception as e:
+                out.viol('copy-raised', f'{tag}:recopy:{type(e).__name__}', f'{type(e).__name__}: {e}')
+                return out
         # ---- independent
         mut = spec['mut']
         if mut:
@@ -466,6 +492,17 @@ def pre_grid():
                 yield dict(spec, atom=[], items=[])
 
 
+def recopy_grid():
+    for kind, rc, seed in itertools.product(['Array', 'Ragged'], ['shrink-regrow', 'grow', 'shrink'], (1, 2)):
+        spec = {'f': 'copy', 'kind': kind, 'dt': {'t': 'int16', 'bo': '<>'[seed % 2]}, 'seed': seed, 'dtarg': None, 'meta': None, 'mode': 'r', 'mut': None, 'side': 'src', 'recopy': rc}
+        if kind == 'Array':
+            yield dict(spec, shape=[4, 2], chunk=None)
+            yield dict(spec, shape=[5], chunk=2)
+        else:
+            yield dict(spec, atom=[], items=[{'n': 2, 'seed': 3}, {'n': 1, 'seed': 4}, {'n': 1, 'seed': 5}])
+            yield dict(spec, atom=[2], items=[{'n': 1, 'seed': 3}, {'n': 0, 'seed': 4}, {'n': 2, 'seed': 5}])
+
+
 def spelling_grid():
     for kind, sp, ow, aspath, ct in itertools.product(['Array', 'Ragged'], SPELLINGS, [False, True], [False, True], ['gz', 'xz']):
         yield {'f': 'archive-spelling', 'kind': kind, 'spelling': sp, 'ow': ow, 'aspath': aspath, 'ct': ct}
@@ -475,6 +512,7 @@ def task_grid(ctx, col, shard):
     enum_search(ctx, col, (s for i, s in enumerate(spelling_grid()) if i % NSHARDS == shard), lambda s: execute(ctx, s))
     if shard == 0:
         enum_search(ctx, col, pre_grid(), lambda s: execute(ctx, s))
+        enum_search(ctx, col, recopy_grid(), lambda s: execute(ctx, s))
     enum_search(ctx, col, (s for i, s in enumerate(grid()) if i % NSHARDS == shard), lambda s: execute(ctx, s))
 
 
